@@ -67,7 +67,9 @@ def rules_of(fx, rep, pid, rules, rule_id, why, tier='quick'):
 LAYERS = {
     'C02': [('C19', {'R19.2'}, 'R02.10', 'a flush hands &buffer[..pos] to WriteHalf::write once: exactly those bytes reach the peer only if the transport writes every byte '
              'of the slice exactly once (a fast path that ignores a partial count truncates a frame and glues it to the next)')],
-    'C06': [('C19', {'R19.2'}, 'R06.7', 'the calls of a chain reach the peer through one WriteHalf::write of the whole batch: a transport that re-sends a prefix after a partial '
+    'C06': [('C02', 'R02.', 'R06.9', 'the calls of a chain are put on the wire by WriteConnection::enqueue, one document and one NUL each, and by one flush: a chain that dies in '
+             'enqueue (a terminator stored past the buffer end) or leaves calls queued has sent other calls than its accounting says'),
+            ('C19', {'R19.2'}, 'R06.7', 'the calls of a chain reach the peer through one WriteHalf::write of the whole batch: a transport that re-sends a prefix after a partial '
              'write makes the peer see other calls than were enqueued, and the replies no longer match the chain\'s accounting')],
     'C03': [('C19', {'R19.2'}, 'E9', 'the bytes of a frame reach the peer through WriteHalf::write: a transport that hands a prefix to the kernel twice emits other bytes than the encoding')],
     'C14': [('C03', {'E1', 'E2', 'E2b', 'E6'}, 'R14.12', 'GetInterfaceDescription carries the rendered text as a JSON string through the built-in serializer: an escaping or '
